@@ -40,7 +40,7 @@ RULE = ("scripted introductions: NAT type of requester x of introduced peer (4x4
         "its WAN address, response only (via a fourth node), response then request, request then response} x "
         "NAT port policy {preserving, remapped} x LAN numbering drawn from all three RFC 1918 ranges incl. their edges and "
         "colliding /24s x listening ports {all 8090, distinct} x optional noise walks among candidates; plus random "
-        "histories: 3-6 hosts with random ages, 6-25 random walk/ask ops in either of two overlays, closed by an introduction of two nodes that do not know each other (oracle); plus the classes lan-collision, foreign-entry (known findings), bootstrap (blacklisted introducer), own-machine (introducer behind a box, peer on its machine), capacity (introducer at max_peers), remap-introduced / remap-requester / roam-requester (NAT mapping renewed, node moved to another public ip), churn (introducer with max_peers=-1 drops and re-verifies the peer), stale-estimate and lan-change (known findings 3, 4), port-reuse (a released WAN port of another peer is given to the requester). distinct = distinct (configuration, op list); non-trivial = at "
+        "histories: 3-6 hosts with random ages, 6-25 random walk/ask ops in either of two overlays, closed by an introduction of two nodes that do not know each other (oracle); plus the classes lan-collision, foreign-entry (known findings), bootstrap (blacklisted introducer), own-machine (introducer behind a box, peer on its machine), capacity (introducer at max_peers), remap-introduced / remap-requester / roam-requester (NAT mapping renewed, node moved to another public ip), churn (introducer with max_peers=-1 drops and re-verifies the peer), stale-estimate and lan-change (known findings 3, 4), port-reuse (a released WAN port of another peer is given to the requester), restart (the requester starts again from its Network snapshot: addresses known without introducer). distinct = distinct (configuration, op list); non-trivial = at "
         "least one packet was dropped by a NAT filter or delivered over a LAN segment")
 TRUSTED_BASE = [
     "tools/gen_c13.py: AST translation of the address decisions of community.py (assignments, if/elif chains, list appends, tuple/attribute/index expressions); IPv4 only, isinstance(x, UDPv4Address) is translated to true",
@@ -410,6 +410,28 @@ class World:
         self.lines.append(f"relan {i} {box} {ip2int(lan[0])} {lan[1]} {ip2int(wan[0])} {wan[1]}")
         self.expect.append("ok")
 
+    def restart(self, i: int):
+        """the node shuts down and starts again: same key and socket, a fresh Network filled from its own snapshot
+        (Network.snapshot / load_snapshot), fresh overlays and my_peer"""
+        from ipv8.community import CommunitySettings
+        from ipv8.peer import Peer
+        from ipv8.peerdiscovery.network import Network
+        h = self.net.hosts[i]
+        snap = h.node.network.snapshot()
+        for nd in h.nodes:
+            h.ep.remove_listener(nd)
+            nd.cancel_all_pending_tasks()
+        self.net.current = h
+        try:
+            me, nw = Peer(self.e["keys"][i]), Network()
+            nw.load_snapshot(snap)
+            h.nodes = [c(CommunitySettings(my_peer=me, endpoint=h.ep, network=nw)) for c in self.e["cls"]]
+            h.node = h.nodes[0]
+        finally:
+            self.net.current = None
+        self.lines.append(f"restart {i}")
+        self.expect.append("ok")
+
     def remove_peer(self, i: int, k: int):
         """churn: node i drops peer k (what a discovery strategy does with a peer that stopped answering)"""
         nw = self.net.hosts[i].node.network
@@ -746,8 +768,17 @@ def scripted(ctx: Ctx, cfg: dict, use_model: bool, batch: list):
                 w.walk(R, hosts[X].wan, 1)
             w.query_all()
             # ---- the scripted introduction ---------------------------------------------------------------------
+            introduce_and_check(s, new)
+            if klass == "restart" and s == 0:
+                # the requester shuts down and starts again from its snapshot: the introduced peer's address is known
+                # without an introducer, nobody is verified; then the introduction once more (it has no peer to ask)
+                w.restart(R)
+                ctx.count("restart:snapshot-entries:%d" % len(hosts[R].node.network._all_addresses))
+                introduce_and_check(s, False)
+
+        def introduce_and_check(s: int, use_ask: bool):
             already = P in w.peers(R, s) and R in w.peers(P, s)
-            ev1 = w.ask(R, I, s) if new else w.walk(R, iaddr, s)
+            ev1 = w.ask(R, I, s) if use_ask else w.walk(R, iaddr, s)
             # the requester's next contact attempt: a walk to every address of the introduction that this overlay
             # reports as walkable (what a DiscoveryStrategy would pick from)
             named = set()
@@ -988,6 +1019,9 @@ def random_history(ctx: Ctx, seed: int, use_model: bool, batch: list):
                     roam = rng.random() < 0.4
                     ctx.count("op:roam" if roam else "op:remap")
                     w.remap(j, *new_mapping(lay, w, j, roam))
+            if rng.random() < 0.04:
+                ctx.count("op:restart")
+                w.restart(rng.randrange(1, nh))
             if rng.random() < 0.06:
                 ps = sorted(set(w.peers(i, 0)) | set(w.peers(i, 1)))
                 if ps:
@@ -1134,6 +1168,7 @@ CLASSES = {
     "stale-estimate": (["same"], ("old", "new")),     # known finding 3: P roams, refreshed at I through the other overlay only
     "lan-change": (["diff", "pPub"], ("old", "new")),  # known finding 4: P moves into R's LAN, my_estimated_lan is cached
     "port-reuse": (["diff", "same", "pPub"], ("old", "new")),   # a released WAN port of another peer is given to the requester
+    "restart": (["diff", "same", "public"], ("old", "new")),           # requester restarts from its snapshot (addresses without introducer)
 }
 
 
